@@ -37,6 +37,7 @@ from happysimulator.components.sync.mutex import Mutex
 from happysimulator.core.clock import Clock
 from happysimulator.core.entity import Entity
 from happysimulator.core.event import Event
+from happysimulator.core.sim_future import SimFuture
 
 logger = logging.getLogger(__name__)
 
@@ -151,10 +152,10 @@ class Condition(Entity):
         enqueue_time = self._clock.now.nanoseconds if self._clock else 0
 
         # Set up wakeup callback
-        woken = [False]
+        signalled = SimFuture()
 
         def on_wake():
-            woken[0] = True
+            signalled.resolve(None)
 
         waiter = _Waiter(callback=on_wake, enqueue_time_ns=enqueue_time)
         self._waiters.append(waiter)
@@ -162,9 +163,8 @@ class Condition(Entity):
         # Release the mutex (this may wake other waiters on the mutex)
         self._lock.release()
 
-        # Wait for signal
-        while not woken[0]:
-            yield 0.0
+        # Wait for signal (parked; a zero-delay poll loop would freeze the clock)
+        yield signalled
 
         # Reacquire the mutex
         yield from self._lock.acquire()
